@@ -468,6 +468,23 @@ func (r ProcResult) Crashed() (bool, string) {
 	return false, ""
 }
 
+// CrashedNotByStatus is Crashed without the exit-status clause: for checks whose statement leaves the numeric
+// value of a non-zero exit status open.
+func (r ProcResult) CrashedNotByStatus() (bool, string) {
+	s := string(r.Stderr)
+	switch {
+	case r.TimedOut:
+		return false, ""
+	case strings.Contains(s, "panic: ") || strings.Contains(s, "\npanic("):
+		return true, "panic"
+	case strings.Contains(s, "fatal error: "):
+		return true, "fatal error"
+	case r.Signal != "":
+		return true, "signal " + r.Signal
+	}
+	return false, ""
+}
+
 // TopFrame extracts the first taskctl frame of a Go panic trace (used as the
 // known-finding signature of a crash).
 func TopFrame(stderr string) string {
